@@ -181,6 +181,11 @@ func (t *trans) leanType(e ast.Expr) string {
 		return "(Option " + t.leanType(x.X) + ")"
 	case *ast.ArrayType:
 		return "(List " + t.leanType(x.Elt) + ")"
+	case *ast.MapType:
+		// a map with string keys: an association list (first binding of a key wins; `mapSet` / `mapDelete` in GoSem keep one per key)
+		if id, ok := x.Key.(*ast.Ident); ok && id.Name == "string" {
+			return "(List (String × " + t.leanType(x.Value) + "))"
+		}
 	case *ast.SelectorExpr:
 		switch t.src(x) {
 		case "time.Time", "time.Duration":
@@ -599,6 +604,13 @@ func (t *trans) effectCall(c *ast.CallExpr) (handled bool, value string) {
 	if t.cur == nil || !t.cur.trace {
 		return false, ""
 	}
+	// a method of the ResponseWriter itself: w.WriteHeader(status)
+	if sel, ok := c.Fun.(*ast.SelectorExpr); ok {
+		if id, ok := sel.X.(*ast.Ident); ok && t.cur.writers[id.Name] && sel.Sel.Name == "WriteHeader" && len(c.Args) == 1 {
+			t.pre = append(t.pre, "trace' := trace' ++ [⟨"+leanStr("w.WriteHeader")+", ["+leanStr(strings.TrimPrefix(t.src(c.Args[0]), "http."))+"]⟩]")
+			return true, "()"
+		}
+	}
 	hasW := false
 	for _, a := range c.Args {
 		if id, ok := a.(*ast.Ident); ok && t.cur.writers[id.Name] {
@@ -710,6 +722,14 @@ func (t *trans) call(c *ast.CallExpr) string {
 				}
 			}
 		}
+		if f.Name == "getSPMetadata" && len(c.Args) == 1 {
+			// reads and parses the request body: a function of the request
+			if sel, ok := c.Args[0].(*ast.SelectorExpr); ok && sel.Sel.Name == "Body" {
+				t.addExtern("getSPMetadata", "(Option HTTPRequest) → Outcome ((Option EntityDescriptor) × GoError)")
+				t.touchStruct("EntityDescriptor")
+				return "(← env.getSPMetadata " + t.expr(sel.X) + ")"
+			}
+		}
 		if t.externs[f.Name] {
 			return t.externCall(f.Name, "", nil, c)
 		}
@@ -783,6 +803,27 @@ func (t *trans) call(c *ast.CallExpr) string {
 				t.addExtern("postFormGet", "HTTPRequest → String → String")
 				return "(env.postFormGet " + t.derefd(inner.X) + " " + t.expr(c.Args[0]) + ")"
 			}
+		}
+		if f.Sel.Name == "Put" && len(c.Args) == 2 {
+			// Store.Put(key, &value): a write to the store — recorded in the trace of a traced handler, and an Env function for its error
+			if inner, ok := f.X.(*ast.SelectorExpr); ok && inner.Sel.Name == "Store" {
+				val := c.Args[1]
+				if u, ok := val.(*ast.UnaryExpr); ok && u.Op == token.AND {
+					val = u.X
+				}
+				if tn, _ := namedOf(t.info.Types[val].Type); tn != "" {
+					field := "storePut_" + tn
+					t.addExtern(field, "String → "+t.leanType(ast.NewIdent(tn))+" → Outcome GoError")
+					if t.cur.trace {
+						t.pre = append(t.pre, "trace' := trace' ++ [⟨\"Store.Put\", ["+t.expr(c.Args[0])+"]⟩]")
+					}
+					return "(← env." + field + " " + t.expr(c.Args[0]) + " " + t.expr(val) + ")"
+				}
+			}
+		}
+		if f.Sel.Name == "PathValue" && len(c.Args) == 1 {
+			t.addExtern("pathValue", "HTTPRequest → String → String")
+			return "(env.pathValue " + t.derefd(f.X) + " " + t.expr(c.Args[0]) + ")"
 		}
 		if f.Sel.Name == "Get" && len(c.Args) == 2 {
 			// Store.Get(key, &value) / Store.Get(key, pointer): the store fills the value; the Env function returns it with the error
@@ -1222,6 +1263,20 @@ func (t *trans) stmt1(o *out, ind int, s ast.Stmt) {
 					return
 				}
 			}
+			// the registry lock: concurrency is outside the translation (C20 has its own machinery)
+			if src := t.src(c.Fun); strings.HasSuffix(src, "Mu.Lock") || strings.HasSuffix(src, "Mu.Unlock") || strings.HasSuffix(src, "Mu.RLock") || strings.HasSuffix(src, "Mu.RUnlock") {
+				return
+			}
+			// delete(recv.m, k) on a map field of the modified receiver
+			if id, ok := c.Fun.(*ast.Ident); ok && id.Name == "delete" && len(c.Args) == 2 {
+				if sel, ok := c.Args[0].(*ast.SelectorExpr); ok && t.isRecv(sel.X) && t.cur.mutRecv {
+					tv := t.info.Types[sel.X]
+					sname, _ := namedOf(tv.Type)
+					t.useField(sname, sel.Sel.Name)
+					o.line(ind, t.cur.recv+" := { "+t.cur.recv+" with "+sel.Sel.Name+" := mapDelete "+t.cur.recv+"."+sel.Sel.Name+" "+t.expr(c.Args[1])+" }")
+					return
+				}
+			}
 			// log lines are not part of the behaviour that is modelled
 			if strings.HasSuffix(t.src(c.Fun), ".logger.Printf") || strings.HasSuffix(t.src(c.Fun), ".Logger.Printf") {
 				return
@@ -1303,6 +1358,16 @@ func (t *trans) assign(o *out, ind int, x *ast.AssignStmt) {
 			}
 			return
 		case *ast.IndexExpr:
+			// recv.m[k] = v on a map field of the modified receiver
+			if sel, ok := l.X.(*ast.SelectorExpr); ok && t.isRecv(sel.X) && t.cur.mutRecv && x.Tok == token.ASSIGN {
+				if _, isMap := t.info.Types[l.X].Type.Underlying().(*types.Map); isMap {
+					tv := t.info.Types[sel.X]
+					sname, _ := namedOf(tv.Type)
+					t.useField(sname, sel.Sel.Name)
+					o.line(ind, t.cur.recv+" := { "+t.cur.recv+" with "+sel.Sel.Name+" := mapSet "+t.cur.recv+"."+sel.Sel.Name+" "+t.expr(l.Index)+" "+t.expr(x.Rhs[0])+" }")
+					return
+				}
+			}
 			// xs[i] = v on a local slice that nothing else aliases (checked: the variable comes from `make` in this function)
 			if id, ok := l.X.(*ast.Ident); ok && x.Tok == token.ASSIGN && t.cur.freshSl[id.Name] {
 				o.line(ind, t.varName(id.Name)+" := (← setIndex "+t.varName(id.Name)+" "+t.expr(l.Index)+" "+t.expr(x.Rhs[0])+")")
@@ -2093,6 +2158,7 @@ func translate(repo string, p *pkgFiles, outPath string) {
 		idpOut = filepath.Join(filepath.Dir(outPath), "TransSamlidp.lean")
 	}
 	idpSpecs := []transSpec{
+		{fn: "HandlePutService", recv: "Server", mutRecv: true, trace: true},
 		{fn: "GetSession", recv: "Server", as: "credentialGuards", trace: true, inside: "if r.Method == \"POST\" && r.PostForm.Get(\"user\") != \"\" {", until: "session := &saml.Session{"},
 		{fn: "GetSession", recv: "Server", as: "cookieSession", trace: true, anchor: "if sessionCookie, err := r.Cookie(\"session\"); err == nil {"},
 	}
@@ -2109,7 +2175,8 @@ func stubHTTP() *types.Package {
 type Cookie struct { Name, Value string }
 type Values map[string][]string
 func (v Values) Get(k string) string
-type Request struct { Form Values }
+type Request struct { Form Values; PostForm Values; Method string; Body interface{} }
+func (r *Request) PathValue(name string) string
 func (r *Request) Cookies() []*Cookie
 func (r *Request) Cookie(name string) (*Cookie, error)
 func (r *Request) ParseForm() error
@@ -2117,6 +2184,9 @@ type ResponseWriter interface{ WriteHeader(int) }
 var ErrNoCookie error
 const StatusFound = 302
 const StatusInternalServerError = 500
+const StatusBadRequest = 400
+const StatusNoContent = 204
+const StatusNotFound = 404
 func Redirect(w ResponseWriter, r *Request, url string, code int)
 func Error(w ResponseWriter, error string, code int)
 func StatusText(code int) string
